@@ -903,6 +903,13 @@ class Mailbox:
                     self.name,
                     e,
                 )
+                # But the command we took off the queue and have not let run
+                # yet must not be forgotten: nobody else is going to wake it
+                # up. It gets the exception as its result.
+                #
+                if imap_cmd is not None and not imap_cmd.ready.is_set():
+                    imap_cmd.error = e
+                    imap_cmd.ready.set()
 
     ####################################################################
     #
